@@ -375,10 +375,11 @@ namespace vf::rt {
 
         void start()
         {
-            th = std::thread([this] {
+            // (environment is read on the calling thread: getenv is not safe against a concurrent setenv)
+            double dump_after = std::getenv("VERIF_DEBUG_DUMP") ? std::atof(std::getenv("VERIF_DEBUG_DUMP")) : 0;
+            th = std::thread([this, dump_after] {
                 int quiet = 0;
                 double t_start = now_s();
-                double dump_after = std::getenv("VERIF_DEBUG_DUMP") ? std::atof(std::getenv("VERIF_DEBUG_DUMP")) : 0;
                 std::uint64_t first_phase = 0;
                 while (!stop.load())
                 {
